@@ -86,3 +86,34 @@ def run(chk: Check) -> None:
                 r2.ok(key, f.loc())
     if n < 25:
         raise AnalysisError(f"only {n} visit methods found in the stub printers")
+    run_pending_decorators_cleared(chk, ix)
+
+
+def run_pending_decorators_cleared(chk: Check, ix) -> None:
+    """R19.3: decorators collected for a function never outlive the decision not to emit it."""
+    r3 = chk.rule("R19.3", "ASTStubGenerator collects the decorators of the next function in self._decorators (process_decorator / add_decorator) and visit_func_def emits and clears them. Every path through visit_func_def from entry to a `return` or to the end passes self.clear_decorators() — except the skip of dataclass-generated methods, which have no decorators: a skip that keeps them (a public-looking function that is not in __all__) attaches them to the next function or method written to the stub (`@overload @overload def area`, a decorated __init__), and mypy and stubtest reject the stub", floor=2)
+    f = ix.func("mypy.stubgen.ASTStubGenerator.visit_func_def")
+    g = CFG(f.node)
+    clears = [n for n in g.nodes if n.kind == "stmt" and any(isinstance(c, ast.Call) and call_name(c) == "clear_decorators" for c in ast.walk(n.stmt))]
+    if not clears:
+        raise AnalysisError("ASTStubGenerator.visit_func_def: no clear_decorators() call found")
+    par = f.module.parents()
+    from ..cfg import branch_conditions
+    ends = [n for n in g.nodes if n.kind == "stmt" and isinstance(n.stmt, ast.Return)]
+    for n in ends:
+        pos, neg = branch_conditions(par, f.node, n.stmt)
+        cond = " and ".join(norm(t)[:60] for t in pos) or "<unconditional>"
+        key = f"visit_func_def: the return under `{cond[:90]}` leaves no pending decorators"
+        exempt = any("dataclass_generated" in norm(t) or "plugin_generated" in norm(t) for t in pos)
+        if exempt:
+            r3.ok(key, f.loc(n.stmt), "methods generated by the dataclass plugin carry no decorators")
+        elif g.must_pass(g.entry, [n], clears, labels_excluded=("exc",)):
+            r3.ok(key, f.loc(n.stmt))
+        else:
+            r3.violation(key, f.loc(n.stmt), "this `return` is reached without clear_decorators(): decorators already collected for the skipped function are written in front of the next definition that is emitted")
+    key = "visit_func_def: the normal end clears the decorators it emitted"
+    # paths to the exit that do not go through a return
+    if g.must_pass(g.entry, [g.exit], clears + ends, labels_excluded=("exc",)):
+        r3.ok(key, f.loc())
+    else:
+        r3.violation(key, f.loc(), "a path reaches the end of visit_func_def without clear_decorators()")
